@@ -362,7 +362,7 @@ def worker_body(world, msg, ack: bool = True) -> Callable[[], None]:
     return body
 
 
-def run_pair(start_db: str, rows: list[int], policy: Policy, *, events: bool = False, extra_bodies: dict | None = None, drain: bool = True, max_steps: int = 400, same_message: bool = False):
+def run_pair(start_db: str, rows: list[int], policy: Policy, *, events: bool = False, extra_bodies: dict | None = None, drain: bool = True, max_steps: int = 400, same_message: bool = False, keep_world: bool = False):
     """Two (or more) designated handler invocations interleaved at statement level from
     the durable state `start_db`; afterwards the rest of the workflow is drained FIFO."""
     from .runs import delivery_run
@@ -400,7 +400,12 @@ def run_pair(start_db: str, rows: list[int], policy: Policy, *, events: bool = F
     if sched.failed:
         w.close()
         return None, info
-    if drain:
+    if drain and keep_world:
+        run, _ = delivery_run({}, world=w, resubmit=False, max_steps=max_steps, keep_world=True)
+        run.race_start_seq = race_start_seq  # type: ignore[attr-defined]
+        run.since = race_start_seq  # type: ignore[attr-defined]
+        info["world"] = w
+    elif drain:
         run = delivery_run({}, world=w, resubmit=False, max_steps=max_steps)
         run.race_start_seq = race_start_seq  # type: ignore[attr-defined]
         run.since = race_start_seq  # type: ignore[attr-defined]  # rows of the pre-cut history belong to no commit of this world
